@@ -10,7 +10,16 @@
   `charCalls / svcCalls / accCalls` read the callback log of the request.
 -/
 import Proofs.Writes
+import Proofs.HandlerConsts
 namespace Hap.Writes
+
+/-- The HAP status codes found in pyhap/const.py *now* (regenerated on every run). -/
+theorem C10_status_codes :
+    Hap.Gen.Handler.status_SUCCESS = 0 ∧
+    Hap.Gen.Handler.status_SERVICE_COMMUNICATION_FAILURE = -70402 ∧
+    Hap.Gen.Handler.status_INVALID_VALUE_IN_REQUEST = -70410 ∧
+    Hap.Gen.Handler.status_INSUFFICIENT_PRIVILEGES = -70401 := by decide
+
 
 /-- **Success means done.** In an executed request over distinct characteristics, an entry answered
     with status 0 was validated (`valid = some n`), the normalised value `n` is the stored value after
